@@ -210,6 +210,8 @@ def key_of(t):
 
 
 FMT_CLASSES = {"s_fmt", "s_fmt2", "s_pct_long"}
+# efuns / forms whose *documented* job is to interpret '%' in a string argument: the twin relation does not apply there
+PCT_SIGNIFICANT = {"sprintf", "printf", "sscanf", "sprintf_col", "sprintf_tab", "parse_command"}
 
 _workers = {}
 
@@ -217,7 +219,7 @@ _workers = {}
 def get_worker(ctx):
     w = _workers.get(ctx.rundir)
     if w is None:
-        w = Worker(ctx.scratch("w"), mudlib_files={"t/dummy.c": genlpc.DUMMY}, timeout=15)
+        w = Worker(ctx.scratch("w"), mudlib_files={"t/dummy.c": genlpc.DUMMY}, timeout=6)
         os.makedirs(os.path.join(w.mudlib, "scratch"), exist_ok=True)
         _workers[ctx.rundir] = w
     return w
@@ -246,7 +248,14 @@ def evaluate_case(ctx, w, case):
         return None, []
     cr = res.crash()
     if cr:
-        return ("%s:%s" % (cr[0], cr[1]), "source:\n" + src + "\n--- records:\n" + "\n".join(map(str, res.recs[-4:])) + "\n--- stderr:\n" + cr[2]), []
+        sig = "%s:%s" % (cr[0], cr[1])
+        if "@?" in sig or cr[0] in ("signal", "exit", "vanished"):
+            # no repository frame in the report: identify the site by the application that was executing
+            for i, t in enumerate(case["tests"]):
+                if not res.step(2 + i):
+                    sig += "|%s:%s" % (t["kind"], t["op"])
+                    break
+        return (sig, "source:\n" + src + "\n--- records:\n" + "\n".join(map(str, res.recs[-4:])) + "\n--- stderr:\n" + cr[2]), []
     done = res.recs[-1] if res.recs else {}
     if done.get("pc_violation"):
         return ("pc-outside-bytecode", "source:\n" + src), []
@@ -260,7 +269,8 @@ def evaluate_case(ctx, w, case):
         r = res.step(2 + i)
         st_ = r.get("st") if r else "missing"
         stats.append((key_of(t), st_))
-        if st_ == "err" and any(v[0] in FMT_CLASSES for v in t["vals"]):
+        if (st_ == "err" and any(v[0] in FMT_CLASSES for v in t["vals"]) and t["op"] not in PCT_SIGNIFICANT
+                and all(v[1] in ("int", "float", "string") for v in t["vals"])):
             twin_needed.append((i, r.get("msg", "")))
     if twin_needed:
         # metamorphic format-string oracle: '%' -> '#' in the attacker text must only substitute in the message
@@ -298,7 +308,7 @@ def check(ctx, w, case):
 
 def shard_main(ctx):
     from hypothesis import given
-    n = {"quick": 2200, "thorough": 60000}[ctx.tier]
+    n = {"quick": 900, "thorough": 60000}[ctx.tier]
     w = get_worker(ctx)
     ctx.extra["efuns_total"] = len(efuns()) if ctx.shard == 0 else 0
     ctx.excluded["efun:shutdown"] = 0
